@@ -88,6 +88,9 @@ struct HttpAsyncCtx_st {
 
 	/* This list is used to recycle #CurlAsyncRequest objects to reduce the number of allocs. */
 	KSI_LIST(CurlAsyncRequest) *reqRecycle;
+
+	/* Requests of this client that are attached to the (context wide) curl multi handle. */
+	CurlAsyncRequest *inFlight;
 };
 
 struct CurlAsyncRequest_st {
@@ -103,7 +106,29 @@ struct CurlAsyncRequest_st {
 	size_t cap;
 	/* Request context. */
 	KSI_AsyncHandle *reqCtx;
+	/* Links of the client's list of requests attached to the curl multi handle. */
+	CurlAsyncRequest *next;
+	CurlAsyncRequest *prev;
 };
+
+static void inFlight_add(HttpAsyncCtx *client, CurlAsyncRequest *t) {
+	t->prev = NULL;
+	t->next = client->inFlight;
+	if (client->inFlight != NULL) client->inFlight->prev = t;
+	client->inFlight = t;
+}
+
+static void inFlight_remove(CurlAsyncRequest *t) {
+	if (t == NULL || t->client == NULL) return;
+	if (t->prev != NULL) {
+		t->prev->next = t->next;
+	} else if (t->client->inFlight == t) {
+		t->client->inFlight = t->next;
+	}
+	if (t->next != NULL) t->next->prev = t->prev;
+	t->next = NULL;
+	t->prev = NULL;
+}
 
 static void CurlAsyncRequest_free(CurlAsyncRequest *t) {
 	if (t == NULL) return;
@@ -158,6 +183,8 @@ static int CurlAsyncRequest_new(HttpAsyncCtx *client, CurlAsyncRequest **t) {
 	tmp->client = client;
 	tmp->errMsg[0] = '\0';
 	tmp->reqCtx = NULL;
+	tmp->next = NULL;
+	tmp->prev = NULL;
 	/* Reset the receive buffer tail. */
 	tmp->len = 0;
 
@@ -423,6 +450,7 @@ static int dispatch(HttpAsyncCtx *clientCtx) {
 					goto cleanup;
 				}
 
+				inFlight_add(clientCtx, curlRequest);
 				curlRequest = NULL;
 				clientCtx->roundCount++;
 
@@ -516,6 +544,7 @@ static int dispatch(HttpAsyncCtx *clientCtx) {
 		}
 		curl_multi_remove_handle(clientCtx->curl->handle, curlMsg->easy_handle);
 		curlMsg = NULL;
+		inFlight_remove(curlResponse);
 		CurlAsyncRequest_free(curlResponse);
 		curlResponse = NULL;
 	}
@@ -526,6 +555,7 @@ cleanup:
 
 	if (curlResponse != NULL) {
 		curl_multi_remove_handle(clientCtx->curl->handle, curlResponse->easyHandle);
+		inFlight_remove(curlResponse);
 		CurlAsyncRequest_free(curlResponse);
 	}
 
@@ -621,6 +651,7 @@ static void CurlMulti_free(CurlMulti *o) {
 				char *curlPriv = NULL;
 				curl_multi_remove_handle(o->handle, msg->easy_handle);
 				curl_easy_getinfo(msg->easy_handle, CURLINFO_PRIVATE, &curlPriv);
+				inFlight_remove((CurlAsyncRequest *)curlPriv);
 				CurlAsyncRequest_free((CurlAsyncRequest *)curlPriv);
 			}
 		} while (msgCount);
@@ -670,6 +701,17 @@ static int CurlMulti_init(KSI_CTX *ctx, const CurlMulti **multi) {
 
 static void HttpAsyncCtx_free(HttpAsyncCtx *o) {
 	if (o != NULL) {
+		/* Detach the transfers that are still running: the multi handle outlives the client. */
+		while (o->inFlight != NULL) {
+			CurlAsyncRequest *t = o->inFlight;
+			o->inFlight = t->next;
+			if (o->curl != NULL) curl_multi_remove_handle(o->curl->handle, t->easyHandle);
+			t->next = NULL;
+			t->prev = NULL;
+			t->client = NULL;
+			CurlAsyncRequest_free(t);
+		}
+
 		/* Cleanup queues. */
 		KSI_AsyncHandleList_free(o->reqQueue);
 		KSI_OctetStringList_free(o->respQueue);
@@ -723,6 +765,7 @@ static int HttpAsyncCtx_new(KSI_CTX *ctx, HttpAsyncCtx **clientCtx) {
 
 	/* Recycling. */
 	tmp->reqRecycle = NULL;
+	tmp->inFlight = NULL;
 
 	res = KSI_Http_init(ctx);
 	if (res != KSI_OK) {
